@@ -478,19 +478,36 @@ class simplify_chained_calls(FuncADLNodeTransformer):
         Also, if this is a First() call, then move the call inside it.
         """
         if type(call_node.func) is ast.Lambda:
-            arg_asts = [self.visit(a) for a in call_node.args]
             func = call_node.func
+            # Arguments given by keyword: find the parameter each one is for
+            param_names = [p.arg for p in func.args.args]
+            for kw in getattr(call_node, "keywords", None) or []:
+                if kw.arg not in param_names[len(call_node.args) :]:
+                    # Not something we can bind - leave the call as it is.
+                    return self.generic_visit(call_node)
+            arg_asts = [self.visit(a) for a in call_node.args]
+            kw_asts = {
+                param_names.index(kw.arg): self.visit(kw.value)
+                for kw in getattr(call_node, "keywords", None) or []
+            }
             # The body is rewritten (in places more than once) while the parameters stand for
             # the arguments: a parameter name that occurs in one of the arguments - or in an
             # argument of an enclosing called lambda, which can turn up in the body - would be
             # replaced inside that argument as well. Use new parameter names in that case.
-            names_in_args = {n.id for a in arg_asts for n in ast.walk(a) if isinstance(n, ast.Name)}
+            names_in_args = {
+                n.id
+                for a in arg_asts + list(kw_asts.values())
+                for n in ast.walk(a)
+                if isinstance(n, ast.Name)
+            }
             names_in_args |= self._names_in_flight()
             if any(p.arg in names_in_args for p in func.args.args):
                 func = make_args_unique(func)
             with stack_frame(self._arg_stack):
                 for a_name, arg in zip(func.args.args, arg_asts):
                     self._arg_stack.define_name(a_name.arg, arg)
+                for index, arg in kw_asts.items():
+                    self._arg_stack.define_name(func.args.args[index].arg, arg)
                 # Now, evaluate the expression, and then lift it.
                 return self.visit(func.body)
         elif _is_method_call_on_first(call_node):
